@@ -88,8 +88,19 @@ func (m *memLoader) Get(p string) (io.Reader, error) {
 	if !ok {
 		return nil, errors.New("memLoader " + m.name + ": not found: " + p)
 	}
+	if strings.HasPrefix(c, brokenMark) {
+		// the reader delivers a leading part (which is a well-formed template of its own) and then fails
+		c = strings.TrimPrefix(c, brokenMark)
+		return io.MultiReader(strings.NewReader(c[:len(c)/3]), failingReader{}), nil
+	}
 	return bytes.NewReader([]byte(c)), nil
 }
+
+const brokenMark = "\x00BROKEN:"
+
+type failingReader struct{}
+
+func (failingReader) Read(p []byte) (int, error) { return 0, io.ErrUnexpectedEOF }
 
 func (m *memLoader) set(p, content string) {
 	m.mu.Lock()
